@@ -1,0 +1,232 @@
+//go:build verif
+
+// Contracts for package parser, read by the verification engine in /verif (twv).
+// Comments only; compiled only with the build tag "verif".
+package parser
+
+//@ spec clip(n int) int = ite(n > 0, n, 0)
+//@ spec nonEOF(t token.TokenType) int = ite(t != token.EOF, 1, 0)
+//@ spec validTok(t token.TokenType) bool = token.ILLEGAL <= t && t <= token.DUMP
+
+// Termination measure of the parser: twice the bytes the lexer has not yet read plus the
+// number of buffered tokens that are not EOF. Every nextToken with a non-EOF current
+// token makes it strictly smaller; it is never negative.
+//@ spec PD(p *Parser) int = 2*clip(len(p.l.input) - p.l.pos) + nonEOF(p.curToken.Type) + nonEOF(p.peekToken.Type)
+
+// binding power of a token: the precedences table, LOWEST when absent (table read from source)
+//@ spec prec(t token.TokenType) int = ite(has(precedences, t), precedences[t], LOWEST)
+
+//@ pred LexOK(p *Parser) = p.l != nil && LexInv(p.l) && validTok(p.curToken.Type) && validTok(p.peekToken.Type)
+//@      && (p.curToken.Type == token.EOF ==> p.peekToken.Type == token.EOF)
+//@      && (p.peekToken.Type == token.EOF ==> p.l.char == 0)
+
+//@ pred ParInv(p *Parser) = LexOK(p) && p.prefixParseFns != nil && p.infixParseFns != nil && p.inserts != nil && p.reserves != nil
+//@      && forall(t, 0, 64, p.prefixParseFns[t].fn == 0 || p.prefixParseFns[t].env == refof(p))
+//@      && forall(t, 0, 64, p.infixParseFns[t].fn == 0 || p.infixParseFns[t].env == refof(p))
+//@      && p.prefixParseFns[token.EOF].fn == 0 && p.infixParseFns[token.EOF].fn == 0
+
+// what every parsing step guarantees: the invariant, the measure does not grow, a step
+// that leaves the measure unchanged leaves the current token type unchanged, and recorded
+// errors are never dropped
+//@ pred ParStep(p *Parser, pd0 int, ct0 token.TokenType, ne0 int) = ParInv(p) && PD(p) <= pd0
+//@      && (PD(p) == pd0 ==> p.curToken.Type == ct0) && len(p.errors) >= ne0
+
+//@ modset PARSER = p.curToken, p.peekToken, p.errors, p.useStmt, p.components, p.l.*, anyslice(*fail.Error), anyslice(*ast.ComponentStmt), anyslice(ast.Statement), anyslice(ast.Expression), anyslice(*ast.SlotStmt), anyslice(*ast.ElseIfStmt), anymap(map[string]*ast.InsertStmt), anymap(map[string]*ast.ReserveStmt), anymap(map[string]ast.Expression)
+
+//@ default (p *Parser)
+//@   requires ParInv(p)
+//@   ensures ParStep(p, old(PD(p)), old(p.curToken.Type), old(len(p.errors)))
+//@   modifies @PARSER
+//@   decreases PD(p), 5
+
+// callbacks registered in prefixParseFns / infixParseFns (bound methods of the parser)
+//@ family parser.prefixParseFn.call(fn)
+//@   requires fn.fn != 0 && ParInv(asptr(fn.env, *Parser)) && asptr(fn.env, *Parser).curToken.Type != token.EOF
+//@   ensures ParStep(asptr(fn.env, *Parser), old(PD(asptr(fn.env, *Parser))), old(asptr(fn.env, *Parser).curToken.Type), old(len(asptr(fn.env, *Parser).errors)))
+//@   modifies asptr(fn.env, *Parser).curToken, asptr(fn.env, *Parser).peekToken, asptr(fn.env, *Parser).errors, asptr(fn.env, *Parser).useStmt, asptr(fn.env, *Parser).components, asptr(fn.env, *Parser).l.*, anyslice(*fail.Error), anyslice(*ast.ComponentStmt), anyslice(ast.Statement), anyslice(ast.Expression), anyslice(*ast.SlotStmt), anyslice(*ast.ElseIfStmt), anymap(map[string]*ast.InsertStmt), anymap(map[string]*ast.ReserveStmt), anymap(map[string]ast.Expression)
+//@   decreases PD(asptr(fn.env, *Parser)), 13
+
+//@ family parser.infixParseFn.call(fn, left)
+//@   requires fn.fn != 0 && ParInv(asptr(fn.env, *Parser)) && asptr(fn.env, *Parser).curToken.Type != token.EOF
+//@   ensures ParStep(asptr(fn.env, *Parser), old(PD(asptr(fn.env, *Parser))), old(asptr(fn.env, *Parser).curToken.Type), old(len(asptr(fn.env, *Parser).errors)))
+//@   modifies asptr(fn.env, *Parser).curToken, asptr(fn.env, *Parser).peekToken, asptr(fn.env, *Parser).errors, asptr(fn.env, *Parser).useStmt, asptr(fn.env, *Parser).components, asptr(fn.env, *Parser).l.*, anyslice(*fail.Error), anyslice(*ast.ComponentStmt), anyslice(ast.Statement), anyslice(ast.Expression), anyslice(*ast.SlotStmt), anyslice(*ast.ElseIfStmt), anymap(map[string]*ast.InsertStmt), anymap(map[string]*ast.ReserveStmt), anymap(map[string]ast.Expression)
+//@   decreases PD(asptr(fn.env, *Parser)), 13
+
+// ---- helpers ----
+
+//@ func (p *Parser) curTokenIs
+//@   inline
+//@ func (p *Parser) peekTokenIs
+//@   inline
+//@ func (p *Parser) peekPrecedence
+//@   inline
+//@ func (p *Parser) registerPrefix
+//@   inline
+//@ func (p *Parser) registerInfix
+//@   inline
+//@ func (p *Parser) Errors
+//@   inline
+//@ func (p *Parser) HasErrors
+//@   inline
+
+//@ func (p *Parser) nextToken
+//@   nodefault
+//@   requires LexOK(p)
+//@   ensures LexOK(p) && p.curToken == old(p.peekToken)
+//@   ensures PD(p) <= old(PD(p))
+//@   ensures old(p.curToken.Type) != token.EOF ==> PD(p) < old(PD(p))
+//@   modifies p.curToken, p.peekToken, p.l.*
+//@   decreases PD(p), 1
+
+//@ func (p *Parser) newError
+//@   nodefault
+//@   requires true
+//@   ensures len(p.errors) == old(len(p.errors)) + 1
+//@   modifies p.errors, anyslice(*fail.Error)
+//@   decreases PD(p), 1
+
+//@ func (p *Parser) expectPeek
+//@   nodefault
+//@   requires ParInv(p) && validTok(tok) && tok != token.EOF
+//@   ensures ParStep(p, old(PD(p)), old(p.curToken.Type), old(len(p.errors)))
+//@   ensures result ==> old(p.peekToken.Type) == tok && p.curToken == old(p.peekToken) && PD(p) < old(PD(p)) && len(p.errors) == old(len(p.errors))
+//@   ensures !result ==> old(p.peekToken.Type) != tok && p.curToken == old(p.curToken) && p.peekToken == old(p.peekToken) && len(p.errors) == old(len(p.errors)) + 1
+//@   modifies p.curToken, p.peekToken, p.l.*, p.errors, anyslice(*fail.Error)
+//@   decreases PD(p), 2
+
+//@ func New
+//@   requires lexer != nil && LexInv(lexer)
+//@   ensures fresh(result) && ParInv(result) && result.l == lexer && len(result.errors) == 0 && result.filepath == filepath
+//@   modifies lexer.*
+
+// ---- program / statements ----
+
+//@ func (p *Parser) ParseProgram
+//@   nodefault
+//@   requires ParInv(p)
+//@   ensures ParInv(p)
+//@   goal program-or-error: result == nil ==> len(p.errors) >= 1
+//@   modifies @PARSER
+//@   loop 0: invariant ParInv(p) && len(p.errors) >= old(len(p.errors)) && prog != nil
+//@   loop 0: decreases PD(p)
+
+//@ func (p *Parser) parseStatement
+//@   decreases PD(p), 19
+
+//@ func (p *Parser) parseBlockStmt
+//@   decreases PD(p), 20
+//@   loop 0: invariant ParInv(p) && PD(p) <= old(PD(p)) && len(p.errors) >= old(len(p.errors)) && stmt != nil
+//@   loop 0: invariant PD(p) == old(PD(p)) ==> p.curToken.Type == old(p.curToken.Type)
+//@   loop 0: decreases PD(p)
+
+//@ func (p *Parser) parseEmbeddedCode
+//@   decreases PD(p), 18
+//@ func (p *Parser) parseIfStmt
+//@   decreases PD(p), 18
+//@   loop 0: invariant ParInv(p) && PD(p) < old(PD(p)) && len(p.errors) >= old(len(p.errors)) && stmt != nil
+//@   loop 0: decreases PD(p)
+//@ func (p *Parser) parseForStmt
+//@   decreases PD(p), 18
+//@ func (p *Parser) parseEachStmt
+//@   decreases PD(p), 18
+//@ func (p *Parser) parseUseStmt
+//@   decreases PD(p), 18
+//@ func (p *Parser) parseReserveStmt
+//@   decreases PD(p), 18
+//@ func (p *Parser) parseInsertStmt
+//@   decreases PD(p), 18
+//@ func (p *Parser) parseBreakIfStmt
+//@   decreases PD(p), 18
+//@ func (p *Parser) parseContinueIfStmt
+//@   decreases PD(p), 18
+//@ func (p *Parser) parseComponentStmt
+//@   decreases PD(p), 18
+//@ func (p *Parser) parseSlotStmt
+//@   decreases PD(p), 18
+//@ func (p *Parser) parseDumpStmt
+//@   decreases PD(p), 18
+//@ func (p *Parser) parseHTMLStmt
+//@   decreases PD(p), 18
+//@ func (p *Parser) parseElseIfStmt
+//@   ensures result != nil ==> PD(p) < old(PD(p))
+//@   decreases PD(p), 17
+//@ func (p *Parser) parseAlternativeBlock
+//@   requires p.peekToken.Type == token.ELSE
+//@   decreases PD(p), 17
+//@ func (p *Parser) parseSlots
+//@   decreases PD(p), 25
+//@   loop 0: invariant ParInv(p) && PD(p) <= old(PD(p)) && len(p.errors) >= old(len(p.errors))
+//@   loop 0: invariant PD(p) == old(PD(p)) ==> p.curToken.Type == old(p.curToken.Type)
+//@   loop 0: decreases PD(p)
+//@   loop 1: invariant ParInv(p) && PD(p) < athead(0, PD(p)) && len(p.errors) >= old(len(p.errors))
+//@   loop 1: decreases PD(p)
+//@ func (p *Parser) parseAssignStmt
+//@   decreases PD(p), 16
+//@ func (p *Parser) parseExpressionStmt
+//@   decreases PD(p), 16
+
+// ---- expressions ----
+
+//@ func (p *Parser) parseExpression
+//@   decreases PD(p), 14
+//@   loop 0: invariant ParInv(p) && PD(p) <= old(PD(p)) && len(p.errors) >= old(len(p.errors))
+//@   loop 0: invariant PD(p) == old(PD(p)) ==> p.curToken.Type == old(p.curToken.Type)
+//@   loop 0: decreases PD(p)
+
+//@ func (p *Parser) parsePrefixExp
+//@   requires p.curToken.Type != token.EOF
+//@   decreases PD(p), 13
+//@ func (p *Parser) parseGroupedExpression
+//@   requires p.curToken.Type != token.EOF
+//@   decreases PD(p), 13
+//@ func (p *Parser) parseArrayLiteral
+//@   requires p.curToken.Type != token.EOF
+//@   decreases PD(p), 13
+//@ func (p *Parser) parseObjectLiteral
+//@   requires p.curToken.Type != token.EOF
+//@   decreases PD(p), 13
+//@   loop 0: invariant ParInv(p) && PD(p) < old(PD(p)) && len(p.errors) >= old(len(p.errors)) && obj != nil && obj.Pairs != nil
+//@   loop 0: decreases PD(p)
+//@ func (p *Parser) parseInfixExp
+//@   requires p.curToken.Type != token.EOF
+//@   decreases PD(p), 13
+//@ func (p *Parser) parseTernaryExp
+//@   requires p.curToken.Type != token.EOF
+//@   decreases PD(p), 13
+//@ func (p *Parser) parseIndexExp
+//@   requires p.curToken.Type != token.EOF
+//@   decreases PD(p), 13
+//@ func (p *Parser) parsePostfixExp
+//@   decreases PD(p), 13
+//@ func (p *Parser) parseDotExp
+//@   requires p.curToken.Type != token.EOF
+//@   decreases PD(p), 13
+//@ func (p *Parser) parseCallExp
+//@   decreases PD(p), 12
+//@ func (p *Parser) parseExpressionList
+//@   requires p.curToken.Type != token.EOF && validTok(endTok) && endTok != token.EOF
+//@   decreases PD(p), 11
+//@   loop 0: invariant ParInv(p) && PD(p) < old(PD(p)) && len(p.errors) >= old(len(p.errors))
+//@   loop 0: decreases PD(p)
+
+//@ func (p *Parser) parseIdentifier
+//@   decreases PD(p), 2
+//@ func (p *Parser) parseIntegerLiteral
+//@   decreases PD(p), 2
+//@ func (p *Parser) parseFloatLiteral
+//@   decreases PD(p), 2
+//@ func (p *Parser) parseStringLiteral
+//@   decreases PD(p), 2
+//@ func (p *Parser) parseNilLiteral
+//@   decreases PD(p), 2
+//@ func (p *Parser) parseBooleanLiteral
+//@   decreases PD(p), 2
+//@ func (p *Parser) parseAliasPathShortcut
+//@   decreases PD(p), 2
+//@ func (p *Parser) checkDuplicateInserts
+//@   requires ParInv(p) && stmt != nil && stmt.Name != nil
+//@   decreases PD(p), 2
+
+//@ func isWhitespace
+//@   modifies nothing
+//@   loop 0: invariant true
